@@ -705,11 +705,16 @@ func partSelect(c *vlib.Ctx, wp *pool) {
 		alpha []string
 		maxK  int
 	}
-	bounds := []bound{{[]string{"0.0.0", "1.0.0", "1.1.0", "1.2.0-beta", "2.0.0"}, 4}}
+	bounds := []bound{
+		{[]string{"0.0.0", "1.0.0", "1.1.0", "1.2.0-beta", "2.0.0"}, 4},
+		// pre-releases of the dev version sort behind 0.0.0
+		{[]string{"0.0.0-alpha", "0.0.0-beta", "0.0.0", "1.0.0", "1.2.0-beta"}, 3},
+	}
 	if !c.Quick() {
 		bounds = []bound{
 			{[]string{"0.0.0", "1.0.0", "1.1.0", "1.2.0-beta", "2.0.0"}, 5},
 			{[]string{"0.0.0-beta", "0.0.0", "1.0.0", "1.2.0-beta", "1.2.0-staging", "1.2.0", "2.0.0"}, 4},
+			{[]string{"0.0.0-alpha", "0.0.0-beta", "0.0.0-staging", "0.0.0", "1.0.0", "1.2.0-beta"}, 4},
 		}
 	}
 	cfgs := allCfgs()
@@ -1946,7 +1951,7 @@ func main() {
 		for i, o := range ops {
 			byName[o.name] = i
 		}
-		c.Rule(fmt.Sprintf("A: every set of <=4 (thorough: <=5, and <=4 of a 7-version alphabet with 0.0.0-beta and two suffixes of one triple) versions of {0.0.0,1.0.0,1.1.0,1.2.0-beta,2.0.0} x every (available, blacklisted, explicit pre-release) vector x every choice of <=1 current release x 2 insertion orders x all 24 registry settings (online, dev mode, use pre-releases, index none/no-auto-download/auto-download), each pool built through AddResource on a fresh resource, then the 24 settings applied one after the other (rotating start) with SelectVersions after each; "+
+		c.Rule(fmt.Sprintf("A: every set of <=4 versions of {0.0.0,1.0.0,1.1.0,1.2.0-beta,2.0.0} and every set of <=3 versions of {0.0.0-alpha,0.0.0-beta,0.0.0,1.0.0,1.2.0-beta} (pre-releases of the dev version, which sort behind it) (thorough: <=5 of the first alphabet, <=4 of a 7-version alphabet with 0.0.0-beta and two suffixes of one triple, <=4 of {0.0.0-alpha,0.0.0-beta,0.0.0-staging,0.0.0,1.0.0,1.2.0-beta}) x every (available, blacklisted, explicit pre-release) vector x every choice of <=1 current release x 2 insertion orders x all 24 registry settings (online, dev mode, use pre-releases, index none/no-auto-download/auto-download), each pool built through AddResource on a fresh resource, then the 24 settings applied one after the other (rotating start) with SelectVersions after each; "+
 			"B: BFS over operation histories, quick: depth 3 over %d operations (selectVersion, GetFile, Purge(0..3), Purge(0) with the file of the oldest/second-oldest/third-oldest version on disk replaced by a non-empty directory, Blacklist of 7 state-relative targets, toggles of dev mode/pre-releases/online, AddVersion of 4 new/existing/alias-spelled versions x 6 flag combinations), thorough: the same to depth 4 and all %d operations (Purge(5), Purge(0|3) with a non-empty or empty directory at each of the three positions, 8 versions x 8 flag combinations) to depth 3, from %d pools of 1-8 versions x {nothing selected, selected and handed out} x 3 (wide: 6) registry settings, every history replayed on fresh resource objects (registry emptied, settings reset) over a real storage directory (files written before and listed after every Purge), states de-duplicated on (settings, version list in list order with flags, selected, active, files); "+
 			"C: every identifier (<=2 directories, 9 base names, <=2 extensions) x version ({0,1,12,007}^3, 5 suffixes) of the file-name format; ScanStorage on real files; D: GetSelectedVersions for 0-3 resources x 24 settings. "+
 			"non-trivial = A: cases whose prescribed version is not the newest listed; B: distinct states with a purged file, a blacklisted version or active != selected; C: identifiers with directory and extension x versions with a suffix; D: cases with at least one resource", len(narrowOps(ops)), len(ops), len(seedPools)))
